@@ -112,6 +112,8 @@ QUICK = [
     # one 32-bit target in the quick tier too: inline capacity 8, length word on the heap above
     # 2^24-2, no upper bound on Capacity - several clauses only bite there
     {"name": "i686/nofeat/debug", "args": ["--no-default-features", "-Zbuild-std=core,alloc", "--target", "i686-unknown-linux-gnu"], "flags": ""},
+    # and one big-endian target: the length words are little-endian in memory whatever the target is
+    {"name": "powerpc64/nofeat/debug", "args": ["--no-default-features", "-Zbuild-std=core,alloc", "--target", "powerpc64-unknown-linux-gnu"], "flags": ""},
 ]
 
 THOROUGH = QUICK + [
@@ -122,7 +124,6 @@ THOROUGH = QUICK + [
     {"name": "x86_64/nofeat/nodebug", "args": ["--no-default-features"], "flags": "-Cdebug-assertions=off"},
     {"name": "x86_64/serde/nodebug", "args": ["--no-default-features", "--features", "serde"], "flags": "-Cdebug-assertions=off"},
     {"name": "x86_64/arbitrary/nodebug", "args": ["--no-default-features", "--features", "arbitrary"], "flags": "-Cdebug-assertions=off"},
-    {"name": "powerpc64/nofeat/debug", "args": ["--no-default-features", "-Zbuild-std=core,alloc", "--target", "powerpc64-unknown-linux-gnu"], "flags": ""},
     {"name": "powerpc/nofeat/debug", "args": ["--no-default-features", "-Zbuild-std=core,alloc", "--target", "powerpc-unknown-linux-gnu"], "flags": ""},
 ]
 
